@@ -117,6 +117,19 @@ func (s *sim) with(state int) []int {
 var keyPools = [][]string{
 	{"i7"}, {"i0", "i1"}, {"i-3", "sK", "i211"}, {"sa", "sb"}, {"i9223372036854775807", "i-9223372036854775808", "s"},
 	{"i5", "s5"}, {"i73", "i146", "i0"},
+	// the same number under different dynamic types: four different keys
+	{"i5", "h5", "l5", "b5"}, {"h7"}, {"l-9223372036854775808", "h-2147483648", "b255"}, {"b0", "h0"},
+	// struct keys (single map only)
+	{"t1:a", "t1:b", "s"}, {"t-7:", "i-7"},
+}
+
+func poolNeedsSingle(pool []string) bool {
+	for _, k := range pool {
+		if k[0] == 't' {
+			return true
+		}
+	}
+	return false
 }
 
 type class struct {
@@ -135,18 +148,24 @@ var classes = []class{
 
 func genScript(r *rng.R, tier string) corr.Case {
 	cl := classes[r.Intn(len(classes))]
-	rw := r.PickInt(1, 2, 2, 3, 3, 10, 4)
+	rw := r.PickInt(1, 2, 2, 3, 3, 10, 4, 7, 64)
 	variant := r.Pick("single", "single", "wide", "xhash")
 	prime := r.PickInt(1, 2, 73, 0, 3)
 	pool := keyPools[r.Intn(len(keyPools))]
-	maxEv, maxActive := 14, 6
-	if tier != "quick" {
-		maxEv = r.Range(8, 26)
-		maxActive = r.Range(3, 9)
+	if poolNeedsSingle(pool) {
+		variant = "single"
 	}
-	if rw == 10 {
-		maxActive += 8
-		maxEv += 10
+	maxEv, maxActive := 14, 6
+	if r.Intn(6) == 0 {
+		maxEv, maxActive = 24, 12 // more simultaneous callers
+	}
+	if tier != "quick" {
+		maxEv = r.Range(8, 30)
+		maxActive = r.Range(3, 16)
+	}
+	if rw >= 7 {
+		maxActive += rw + 2
+		maxEv += rw + 6
 	}
 	lines := []string{fmt.Sprintf("new %s %d %d", variant, rw, prime)}
 	if rw == 10 && r.Intn(3) == 0 {
@@ -156,7 +175,7 @@ func genScript(r *rng.R, tier string) corr.Case {
 	used := map[int]bool{}
 	fresh := func() int {
 		for {
-			t := r.Intn(60)
+			t := r.Intn(400)
 			if !used[t] {
 				used[t] = true
 				return t
@@ -198,8 +217,8 @@ func genScript(r *rng.R, tier string) corr.Case {
 		if len(s.ids) == 0 {
 			wc = 0
 		}
-		if rw == 10 && active < 9 {
-			wa *= 4 // fill the ratio
+		if rw >= 7 && active < rw+1 {
+			wa *= 6 // fill the ratio: the boundary is at rw readers
 		}
 		tot := wa + wr + wc
 		if tot == 0 {
@@ -282,12 +301,125 @@ func genScript(r *rng.R, tier string) corr.Case {
 	return corr.Case{Tag: cl.name + "/" + variant, Lines: lines}
 }
 
+// long queues: one or a few holders, 20-40 (thorough: up to 60) blocked callers behind them, late arrivals that would
+// fit if they were allowed to overtake, then releases / cancels at the head, in the middle and at the tail.
+func genLongQueue(r *rng.R, tier string) corr.Case {
+	rw := r.PickInt(1, 2, 3, 7)
+	variant := r.Pick("single", "wide", "xhash")
+	pool := [][]string{{"i7"}, {"sQ"}, {"h3"}, {"l9", "i9"}, {"b1"}}[r.Intn(5)]
+	lines := []string{fmt.Sprintf("new %s %d %d", variant, rw, r.PickInt(1, 2, 73, 0))}
+	s := newSim(rw)
+	next := 0
+	acq := func(key string, write bool) {
+		op := "acqR"
+		if write {
+			op = "acqW"
+		}
+		lines = append(lines, fmt.Sprintf("%s %d %s", op, next, key))
+		s.acquire(next, key, write)
+		next++
+	}
+	key := pool[0]
+	// blockers
+	if rw == 1 || r.Intn(2) == 0 {
+		acq(key, r.Intn(2) == 0)
+	} else {
+		for i, n := 0, r.Range(1, rw-1); i < n; i++ {
+			acq(key, false)
+		}
+	}
+	// the queue
+	n := r.Range(20, 40)
+	if tier != "quick" {
+		n = r.Range(20, 60)
+	}
+	writePct := r.PickInt(100, 70, 40)
+	acq(key, true) // a writer at the head: nothing behind it may pass
+	for i := 1; i < n; i++ {
+		acq(key, r.Intn(100) < writePct)
+	}
+	// late arrivals (readers fit numerically while the writers wait) and a mixed tail
+	for i, k := 0, r.Range(2, 5); i < k; i++ {
+		acq(pool[r.Intn(len(pool))], r.Intn(4) == 0)
+	}
+	lines = append(lines, "who", "inside "+key, "state "+key)
+	for ev, m := 0, r.Range(8, 24); ev < m; ev++ {
+		holders, waiting := s.with(stInside), s.with(stParked)
+		switch x := r.Intn(10); {
+		case x < 4 && len(holders) > 0:
+			t := holders[r.Intn(len(holders))]
+			if len(waiting) > 0 && r.Intn(4) == 0 {
+				u := waiting[r.Intn(len(waiting))]
+				lines = append(lines, fmt.Sprintf("relx %d %d", t, u))
+				s.release(t)
+				s.cancel(u)
+			} else {
+				lines = append(lines, "rel "+strconv.Itoa(t))
+				s.release(t)
+			}
+		case x < 7 && len(waiting) > 0:
+			// head, tail or anywhere
+			t := waiting[r.Intn(len(waiting))]
+			if k := s.keys[key]; k != nil && len(k.queue) > 0 {
+				switch r.Intn(3) {
+				case 0:
+					t = k.queue[0]
+				case 1:
+					t = k.queue[len(k.queue)-1]
+				}
+			}
+			lines = append(lines, "cancel "+strconv.Itoa(t))
+			s.cancel(t)
+		default:
+			acq(pool[r.Intn(len(pool))], r.Intn(3) == 0)
+		}
+		if r.Intn(5) == 0 {
+			lines = append(lines, "who")
+		}
+	}
+	if r.Intn(3) == 0 {
+		for guard := 0; guard < 400; guard++ {
+			holders, waiting := s.with(stInside), s.with(stParked)
+			if len(holders)+len(waiting) == 0 {
+				break
+			}
+			if len(holders) > 0 {
+				t := holders[r.Intn(len(holders))]
+				lines = append(lines, "rel "+strconv.Itoa(t))
+				s.release(t)
+			} else {
+				t := waiting[0]
+				lines = append(lines, "cancel "+strconv.Itoa(t))
+				s.cancel(t)
+			}
+		}
+	}
+	lines = append(lines, "who", "entries")
+	for _, k := range pool {
+		lines = append(lines, "state "+k, "inside "+k)
+	}
+	return corr.Case{Tag: "long-queue/" + variant, Lines: lines}
+}
+
+// genuinely parallel stress (child process): goroutines x keys for a few hundred ms; the only correct outcome is `ok`
+func genStress(r *rng.R, tier string) corr.Case {
+	ms := r.Range(200, 350)
+	g := r.PickInt(8, 16, 24)
+	if tier != "quick" {
+		ms = r.Range(600, 1500)
+		g = r.PickInt(8, 16, 32, 48)
+	}
+	line := fmt.Sprintf("stress %s %d %d %d %d %d %d", r.Pick("single", "wide", "xhash"), r.PickInt(1, 2, 3, 7), r.PickInt(1, 2, 73, 0),
+		g, r.PickInt(1, 2, 3, 5), ms, r.Intn(1000000))
+	return corr.Case{Tag: "parallel-stress", Lines: []string{line}}
+}
+
 // malformed stream: ill-formed and not-enabled lines mixed into a valid skeleton
 func genMalformed(r *rng.R) corr.Case {
 	lines := []string{r.Pick("new single 2 0", "new wide 3 2", "new xhash 1 73")}
 	junk := []string{"", "rel", "rel 99", "rel x", "rel 01", "cancel 77", "cancel -1", "acqR 1", "acqR 1 i5 extra", "acqR 01 i5",
 		"acqR 1 x5", "acqR 1 i05", "acqR 1 i+5", "acqR 1 i", "acqW 1234567890 i1", "acqR 1 i9223372036854775808",
-		"acqR -1 i5", "new single 0 0", "new triple 2 0", "new single 2", "new single 02 0", "new single 2 12345",
+		"acqR -1 i5", "acqR 1 h2147483648", "acqR 1 b256", "acqR 1 b-1", "acqR 1 t5", "acqR 1 tx:a", "acqR 1 l", "stress single 0 0 8 2 100 1", "stress single 2 0 65 2 100 1", "stress single 2 0 8 9 100 1", "stress single 2 0 8 2", "new single 0 0", "new triple 2 0", "new single 2", "new single 02 0", "new single 2 12345",
 		"new single 1234567 0", "state", "state k", "inside", "inside 5", "who now", "entries 1", "ACQR 1 i5", "acqRx 3",
 		"acqZ 1 i5", "rel 1 2", "relx 1", "relx 1 x", "relx 99 1", "obj", "obj 99", "obj x", "state i05", "inside i--1", "new wide 2 -1"}
 	n := r.Range(6, 16)
@@ -448,6 +580,11 @@ func fixedCases() []corr.Case {
 		mk("default-prime", "new wide 10 0", "acqW 1 i211", "acqR 2 i0", "acqR 3 i211", "who", "entries", "rel 1", "who", "rel 2", "rel 3", "entries"),
 		mk("reinit", "new single 2 0", "acqW 1 i0", "acqR 2 i0", "new single 2 0", "acqR 2 i0", "who", "entries"),
 		mk("default-ratio", "new single d 0", "acqR 1 i0", "acqR 2 i0", "acqR 3 i0", "acqR 4 i0", "acqR 5 i0", "acqR 6 i0", "acqR 7 i0", "acqR 8 i0", "acqR 9 i0", "acqR 10 i0", "acqR 11 i0", "acqW 12 i0", "inside i0", "who", "state i0"),
+		mk("key-types", "new wide 2 2", "acqW 1 i5", "acqW 2 h5", "acqW 3 l5", "acqW 4 b5", "acqW 5 s5", "who", "entries", "acqR 6 h5", "rel 2", "who", "rel 1", "rel 3", "rel 4", "rel 5", "rel 6", "entries"),
+		mk("struct-keys", "new single 2 0", "acqW 1 t1:a", "acqW 2 t1:b", "acqW 3 t1:a", "who", "entries", "rel 1", "who", "rel 2", "rel 3", "entries", "state t1:a"),
+		mk("struct-key-not-routable", "new wide 2 2", "acqW 1 t1:a", "who"),
+		mk("parallel-stress", "stress single 3 0 16 2 250 1"),
+		mk("parallel-stress-wide", "stress xhash 1 2 12 3 250 2"),
 		mk("drain", "new single 2 0", "acqR 1 i0", "acqR 2 i0", "acqW 3 i0", "rel 1", "rel 2", "rel 3", "entries", "state i0"),
 	}
 }
@@ -478,8 +615,18 @@ func spec() corr.Spec {
 			if tier == "thorough" && i < len(enumCases()) {
 				return enumCases()[i]
 			}
+			stressEvery := 1200
+			if tier != "quick" {
+				stressEvery = 2500
+			}
+			if i%stressEvery == 7 {
+				return genStress(r, tier)
+			}
 			if i%12 == 11 {
 				return genMalformed(r)
+			}
+			if i%20 == 3 {
+				return genLongQueue(r, tier)
 			}
 			return genScript(r, tier)
 		},
@@ -504,7 +651,7 @@ func spec() corr.Spec {
 			}
 			return "C01:corr:" + op
 		},
-		Rule: "scripts of acqR/acqW/acqRx/acqWx/rel/relx/cancel events (quiescence after each) over <= 6 (thorough <= 17) simultaneous callers, 1-3 keys (int and string, incl. MinInt64/MaxInt64/empty string), rwRatio in {1,2,3,4,10}, single/wide/xhash maps with prime in {1,2,3,73,default 211}; 5 generator classes (rw-mix, reader-heavy, writer-heavy, cancel-heavy, drain) + 1/12 malformed; thorough adds every maximal script <= 7 events over 3 callers x 2 keys (rw 2), <= 7 events over 4 callers (rw 3), <= 6 events incl. relx (rw 1, rw 2). A case is non-trivial when some caller had to wait or a release/cancel admitted a waiter; distinct = distinct script text",
+		Rule: "sequential class: scripts of acqR/acqW/acqRx/acqWx/rel/relx/cancel events (quiescence after each) over <= 12 (thorough <= 16; rwRatio+2 more for rwRatio >= 7) simultaneous callers, 1-4 keys of dynamic types int/int32/int64/uint8/string/struct (incl. extreme values, the same number under four types), rwRatio in {1,2,3,4,7,10,64,default}, single/wide/xhash maps with prime in {1,2,3,73,default 211}; 5 generator classes (rw-mix, reader-heavy, writer-heavy, cancel-heavy, drain) + 1/20 long-queue (20-40, thorough 20-60 blocked callers behind a writer, late arrivals, cancels at head/middle/tail) + 1/12 malformed; parallel class: `stress` lines = N goroutines x few keys for 0.2-1.5 s in a child process, no scheduling by the harness (callers' own section counters, termination, empty container, runtime fatal errors); thorough adds every maximal script <= 7 events over 3 callers x 2 keys (rw 2), <= 7 events over 4 callers (rw 3), <= 6 events incl. relx (rw 1, rw 2). A case is non-trivial when some caller had to wait or a release/cancel admitted a waiter; distinct = distinct script text",
 		Assumptions: []string{
 			"sync.Mutex makes each of the three critical sections (acquire up to Unlock, release, cancel fix-up) atomic; channels/select/context behave as documented",
 			"callers release what they acquired, with the same key and the matching Release* (read/write)",
